@@ -7,7 +7,9 @@ from harness import build, gen, simnet, wire, httpref
 from harness.runner import Prop, Enumeration, held, failed, after_every_prelude, with_noise, with_companion
 from props.c01 import effective_seg
 
-HOSTS = ["example.test", "EXAMPLE.Test", "a.b-c.example", "127.0.0.1", "localhost", "xn--bcher-kva.example"]
+HOSTS = ["example.test", "EXAMPLE.Test", "a.b-c.example", "127.0.0.1", "localhost", "xn--bcher-kva.example",
+         # IPv6 literals: in a URL, in a Host header (RFC 7230 5.4) and in an authority they are written in brackets
+         "[::1]", "[2001:db8::7]"]
 PATHS = ["", "/", "/chat", "/a/b%20c", "/p;x=1", "/deep/er/path/", "/%E2%82%AC"]
 QUERIES = ["", "x=1", "a=b&c=d", "q=%E2%82%AC", "flag", "a=1&a=2"]
 ACCEPT_KINDS = ["correct", "other_key", "no_guid", "swapcase", "lower", "upper", "one_case_flip", "one_char",
@@ -21,8 +23,11 @@ STATUSES = [101, 101, 101, 101, 200, 100, 204, 301, 400, 403, 404, 426, 500, 503
 FRAME_AFTER = wire.build_frame(wire.TEXT, b"must-not-be-delivered-unless-ready")
 
 
+USERINFO = [None, None, None, "bob", "bob:secret", "a%40b:p%3Aw", ":"]
+
+
 def build_url(u):
-    s = u["scheme"] + "://" + u["host"]
+    s = u["scheme"] + "://" + ((u["userinfo"] + "@") if u.get("userinfo") else "") + u["host"]
     if u["port"] is not None:
         s += ":%d" % u["port"]
     s += u["path"]
@@ -100,6 +105,8 @@ class C10(Prop):
             "host": st.sampled_from(HOSTS),
             "port": st.one_of(st.none(), st.sampled_from([80, 443, 8080, 65535, 1, 8443])),
             "path": st.sampled_from(PATHS), "query": st.sampled_from(QUERIES),
+            # credentials in the authority part of the URL: not part of the host the request is for
+            "userinfo": st.sampled_from(USERINFO),
         })
         hname = st.from_regex(r"X-[A-Za-z][A-Za-z0-9\-]{0,10}", fullmatch=True)
         hval = st.from_regex(r"[!-~]([ -~]{0,18}[!-~])?", fullmatch=True)
@@ -188,7 +195,18 @@ class C10(Prop):
                    dict(base, reply={"status": 101, "upgrade": "websocket", "accept": "other_key", "terminate": True}),
                    dict(base, reply={"status": 101, "upgrade": "h2c", "accept": "correct", "terminate": True}),
                    dict(base, reply={"status": 200, "upgrade": "websocket", "accept": "correct", "terminate": True})]
-        return [Enumeration("accept_x_upgrade_x_status", accepts, exhaustive=True),
+        def url_shapes():
+            # every URL shape: scheme x host x port x path x query x credentials, canonical reply
+            for scheme in ("ws", "wss"):
+                for host in HOSTS:
+                    for port in (None, 80, 443, 8080):
+                        for path, query in (("", ""), ("/", "x=1"), ("/a/b%20c", ""), ("", "flag")):
+                            for userinfo in (None, "bob", "bob:secret", "a%40b:p%3Aw"):
+                                yield dict(base, url={"scheme": scheme, "host": host, "port": port, "path": path,
+                                                      "query": query, "userinfo": userinfo},
+                                           reply={"status": 101, "upgrade": "websocket", "accept": "correct", "terminate": True})
+        return [Enumeration("url_shapes", url_shapes, exhaustive=True),
+                Enumeration("accept_x_upgrade_x_status", accepts, exhaustive=True),
                 Enumeration("header_spellings", spellings, exhaustive=True), after_every_prelude(battery),
                 with_companion(battery)]
 
